@@ -1,12 +1,12 @@
 /-
 A small imperative IR for ONE `case RULE_*:` body of `peg_rule` (peg.c) and its semantics over the model state `St`.
 
-tools/gen/peg.py parses the statements of the simpler opcode cases of the CURRENT peg.c into this IR (`Gen/PegSkel.lean`,
+tools/gen/pegskel.py parses the statements of ALL 37 opcode cases of the CURRENT peg.c into this IR (`Gen/PegSkel.lean`,
 regenerated on every run): locals are numbered in order of first definition (a renamed local gives the same program), pure
 operand aliases (`uint32_t tag = rule[2];`, `const uint32_t *rule_a = s->bytecode + rule[1];`) are substituted, an `if` takes
 the rest of the case body into both branches (a program is a tree whose leaves are `return` / `goto tail`).
 
-`Peg/Tie.lean` proves, for each such opcode, that the extracted program run by `exec` IS the corresponding case of the
+`Peg/TieSkel.lean` proves, for each opcode, that the extracted program run by `exec` IS the corresponding case of the
 hand-written operational model `Op.step` - a semantic comparison: an edit of peg.c that keeps the behaviour of the case keeps
 the theorem, an edit that changes the order of cap_save / cap_load, the mode or window save / restore, the depth counter, the
 sub-rule calls or the returned pointer does not.
